@@ -221,7 +221,7 @@ package memfs
 //@   ensures foralls(s, s != name ==> has(d.index, s) == old(has(d.index, s)) && d.index[s] == old(d.index[s]))
 //@   ensures result != nil ==> len(d.nodes) == old(len(d.nodes)) && forall(k, 0 <= k && k < len(d.nodes) ==> d.nodes[k] == old(d.nodes[k]))
 //@   loop 1 invariant [C01 C04] Tree()
-//@   loop 1 invariant -1 <= $i && $i < len(d.nodes) && DirInv(d) && held(d.mu)
+//@   loop 1 invariant -1 <= $i && $i < len(d.nodes) && DirInv(d) && held(d.mu) && len(rangeslice(d.nodes)) == len(d.nodes)
 //@   loop 1 invariant forall(k, 0 <= k && k <= $i ==> nodeName(d.nodes[k]) != name)
 //@   loop 1 invariant [C01 C04] ref(d.index) == old(ref(d.index)) && len(d.nodes) == old(len(d.nodes)) && foralls(s, has(d.index, s) == old(has(d.index, s)) && d.index[s] == old(d.index[s])) && forall(k, 0 <= k && k < len(d.nodes) ==> d.nodes[k] == old(d.nodes[k]))
 //@   loop 1 decreases len(d.nodes) - $i
